@@ -941,7 +941,8 @@ func (p *pipeGen) admitCase() {
 	r := p.r
 	p.ecs = !r.Chance(1, 8)
 	cfgs := [][4]int{{24, 56, 24, 56}, {24, 56, 24, 48}, {32, 128, 24, 48}, {32, 128, 32, 128}, {24, 56, 16, 32},
-		{24, 56, 32, 64}, {32, 64, 20, 40}, {32, 128, 8, 16}, {24, 48, 24, 24}, {16, 56, 16, 56}}
+		{24, 56, 32, 64}, {32, 64, 20, 40}, {32, 128, 8, 16}, {24, 48, 24, 24}, {16, 56, 16, 56},
+		{32, 128, 24, 16}, {24, 56, 24, 8}, {32, 32, 28, 20}} // floors of one family below the other's
 	cf := vlib.Pick(r, cfgs)
 	p.op("pipe new %s %d,%d,%d,%d,0", map[bool]string{true: "on", false: "off"}[p.ecs], cf[0], cf[1], cf[2], cf[3])
 	v6 := r.Chance(1, 2)
